@@ -21,11 +21,11 @@ impl From<LexiconSetError> for SudachiError { #[verifier::external_body] fn from
 #[verifier::external_body] fn err_string() -> String { String::new() }   // R12: message texts are not verified
 
 // opaque collaborators (R14): their content plays no role in the part-of-speech bookkeeping
-pub struct ConnectionMatrix<'a> { _p: core::marker::PhantomData<&'a ()> }
-pub struct CharacterCategory { _p: () }
-pub struct Header { _p: () }
-pub struct SudachiDicData { _p: () }
-pub struct Plugins { _p: () }
+#[verifier::external_body] pub struct ConnectionMatrix<'a> { _p: core::marker::PhantomData<&'a ()> }
+#[verifier::external_body] pub struct CharacterCategory { _p: () }
+#[verifier::external_body] pub struct Header { _p: () }
+#[verifier::external_body] pub struct SudachiDicData { _p: () }
+#[verifier::external_body] pub struct Plugins { _p: () }
 
 //@extract sudachi/src/dic/grammar.rs :: struct Grammar
 //@end
@@ -115,7 +115,8 @@ impl<'a> Grammar<'a> {
 //@end
 
 /// opaque collaborator: one lexicon
-pub struct Lexicon<'a> { lex_id: u8, _p: core::marker::PhantomData<&'a ()> }
+#[verifier::external_body] pub struct AbstractRest { _p: () }
+pub struct Lexicon<'a> { lex_id: u8, _rest: AbstractRest, _p: core::marker::PhantomData<&'a ()> }
 impl<'a> Lexicon<'a> {
     uninterp spec fn sp_info(&self, word_id: u32, subset: InfoSubset) -> WordInfo;
     /// ASSUMED: rewrites the cost column only (tokenizes each surface with the dictionary merged so far)
